@@ -554,3 +554,66 @@ mut('C10', 'memoised-build-status', GITHUB,
 mut('C10', 'wrong-policy-forwarded', PRUTILS,
     "        _send_comment(settings, pull_request, str(comment),\n                      comment.dont_repeat_if_in_history)",
     "        _send_comment(settings, pull_request, str(comment), 0)")
+
+# ------------------------------------------------------------------- C08
+mut('C08', 'force-push', GIT,
+    "            self.cmd('git push --set-upstream origin ' + name)",
+    "            self.cmd('git push --force --set-upstream origin ' + name)")
+mut('C08', 'push-all-force', GIT,
+    "            self.cmd('git push --all --atomic %s' % prune)",
+    "            self.cmd('git push --all --atomic --force-with-lease %s' % prune)")
+mut('C08', 'guard-widened', GIT,
+    "                 self.name.startswith('tmp/')) and not force):",
+    "                 self.name.startswith('tmp/') or\n                 self.name.startswith('feature/')) and not force):")
+mut('C08', 'guard-raise-removed', GIT,
+    "            raise ForbiddenOperation('cannot delete branch %s' %\n                                     self.name)",
+    "            LOG.warning('deleting foreign branch %s', self.name)")
+mut('C08', 'guard-or-force', GIT,
+    "                 self.name.startswith('tmp/')) and not force):",
+    "                 self.name.startswith('tmp/')) and force):")
+mut('C08', 'force-default-true', GIT,
+    "    def remove(self, del_local=True, force=False, do_push=False):",
+    "    def remove(self, del_local=True, force=True, do_push=False):")
+mut('C08', 'force-from-delete-queues', DELQ,
+    "        branch.remove(do_push=False)", "        branch.remove(force=True, do_push=False)")
+mut('C08', 'tag-after-delete', DELETE,
+    "    archive_tag = del_branch.version\n    if isinstance(del_branch, HotfixBranch):\n        archive_tag = archive_tag + '.archived_hotfix_branch'\n    try:\n        del_branch.checkout()\n        repo.cmd('git tag %s' % archive_tag)\n        repo.cmd('git push origin %s' % archive_tag)\n    except CommandError:\n        raise exceptions.JobFailure('Unable to push new tag, '\n                                    'keep pushing.')\n\n    do_delete(del_branch, force=True)\n",
+    "    archive_tag = del_branch.version\n    if isinstance(del_branch, HotfixBranch):\n        archive_tag = archive_tag + '.archived_hotfix_branch'\n    do_delete(del_branch, force=True)\n    try:\n        del_branch.checkout()\n        repo.cmd('git tag %s' % archive_tag)\n        repo.cmd('git push origin %s' % archive_tag)\n    except CommandError:\n        raise exceptions.JobFailure('Unable to push new tag, '\n                                    'keep pushing.')\n")
+mut('C08', 'tag-not-pushed', DELETE,
+    "        repo.cmd('git push origin %s' % archive_tag)\n", "")
+mut('C08', 'raw-delete-refspec', INTEG,
+    "    push(job.git.repo, prune=True)\n",
+    "    push(job.git.repo, prune=True)\n    job.git.repo.push(':' + job.git.src_branch.name)\n")
+mut('C08', 'raw-delete-cmd', QUEUE,
+    "    dst.checkout()\n    for wbranch in wbranches:",
+    "    dst.checkout()\n    repo.cmd('git push origin --delete %s', src.name)\n    for wbranch in wbranches:")
+mut('C08', 'ghost-remove-deleted', BRANCHES,
+    "    def remove(self, do_push=False):\n        pass  # Never delete the source branch\n", "")
+mut('C08', 'ghost-remove-real', BRANCHES,
+    "        pass  # Never delete the source branch",
+    "        super().remove(do_push=do_push)")
+mut('C08', 'integration-remove-forced', BRANCHES,
+    "        super().remove(do_push=do_push)\n\n\nclass GhostIntegrationBranch",
+    "        super().remove(do_push=do_push, force=True)\n\n\nclass GhostIntegrationBranch")
+mut('C08', 'hard-reset-destination', INTEG,
+    "    first, *children = wbranches\n    first.dst_branch.merge(first)",
+    "    first, *children = wbranches\n    first.dst_branch.reset()\n    first.dst_branch.merge(first)")
+mut('C08', 'tmp-not-removed', GITUTILS,
+    "    tmp_oct.remove()\n    tmp_cns.remove()\n", "    tmp_oct.remove()\n")
+mut('C08', 'tmp-foreign-name', GITUTILS,
+    "git.Branch(dst.repo, 'tmp/normal/{}'.format(dst))",
+    "git.Branch(dst.repo, 'normal/{}'.format(dst))")
+mut('C08', 'seventh-prune-caller', QUEUE,
+    "    push(job.git.repo, to_push)\n", "    push(job.git.repo, to_push)\n    push(job.git.repo, prune=True)\n")
+mut('C08', 'prune-in-named-push', GIT,
+    "            self.cmd('git push --set-upstream origin ' + name)",
+    "            self.cmd('git push --prune --set-upstream origin ' + name)")
+mut('C08', 'update-ref', GIT,
+    "            self.repo.cmd('git reset --hard %s',\n                          'origin/' + self.name if origin else self.name)",
+    "            self.repo.cmd('git update-ref refs/heads/%s %s', self.name,\n                          'origin/' + self.name if origin else self.name)")
+mut('C08', 'subprocess-elsewhere', DELQ,
+    "    LOG.debug('Queues deleted')",
+    "    import subprocess\n    subprocess.call('git push origin :refs/heads/old', shell=True)\n    LOG.debug('Queues deleted')")
+mut('C08', 'checkout-B', GIT,
+    "            self.repo.cmd('git checkout -b %s %s', self.name,",
+    "            self.repo.cmd('git checkout -B %s %s', self.name,")
